@@ -11,6 +11,9 @@ HERE = os.path.dirname(os.path.abspath(__file__))
 _corpus = None
 
 
+# every slot of a template that takes a bare integer draws from here: zero (falsy in the host language), leading zeros, one, large
+INT_SLOT = ['0', '0', '00', '1', '5', '10', '007', '1000000']
+
 def corpus():
     global _corpus
     if _corpus is None:
@@ -28,6 +31,8 @@ QUOTED_IDS = ['`my col`', '`a-b`', '`Ünï`', '`x y z`', '`1st`']
 DB_IDS = ['int1', 'mindsdb', 'files', 'proj', 'db2']
 STRINGS = ["'x'", "'hello world'", "''", "'a b'", "'2020-01-01'", "'Ünïcode'", "'%abc%'", "'a:b'",
            "'semi;colon'", "'dash--dash'", "'/* c */'", "'1'", '"dq"', '"d q"', "'my\\_tbl%'", "'back\\\\slash'", "'50%'"]
+OPTION_QUOTED = ["'it''s'", "'say \"yes\" now'", "'don''t say ''maybe'', say \"yes\" ok'", "'a ''b'' \"c\" ''d'' e'", "'x \"y\" ''z'' \"w\" v'",
+                 "'one '' two \" three'", "'don''t say ''maybe'', say \"yes\"'", "'\"q\" isn''t ''x'' y'", "'\"a\" ''b'' ''c'' \"d\"'"]   # no two quotes side by side in the text: `\'\'` printed, `''` re-read as one (C04-F1's double decoding)
 INTS = ['0', '1', '2', '7', '10', '42', '100', '007', '123456789012345678901']
 FLOATS = ['0.5', '1.0', '3.14', '10.25', '00.50', '0.00001', '0.30000000000000004', '10000000000000000.0', '123456.78901234567', '0.0000001234']
 FUNCS = ['count', 'sum', 'max', 'min', 'avg', 'lower', 'upper', 'coalesce', 'abs', 'concat', 'my_func']
@@ -131,7 +136,7 @@ def expr(rng, depth=2, boolean=False, subq=True):
     if k == 'typecast':
         return f'{path(rng, 2)}::{rng.choice(TYPES)}'
     if k == 'interval':
-        return rng.choice(["INTERVAL '1 day'", "interval 3 hour", "INTERVAL '2' week"])
+        return rng.choice(["INTERVAL '1 day'", "interval 3 hour", "INTERVAL '2' week", f"INTERVAL {rng.choice(INT_SLOT)} day", "INTERVAL '0' hour", "interval '0 min'"])
     if k == 'json':
         return f'{path(rng, 2)} {rng.choice(["->", "->>"])} {rng.choice(STRINGS[:2] + ["0"])}'
     if k == 'kwfunc':
@@ -140,7 +145,8 @@ def expr(rng, depth=2, boolean=False, subq=True):
         return rng.choice([f"extract(MONTH FROM {path(rng, 2)})", f"substring({path(rng, 1)} FROM 1 FOR 2)",
                            f"trim({const(rng)} FROM {path(rng, 1)})", 'DATABASE()', f"DATE '2020-01-01'",
                            f'CONVERT({path(rng, 1)}, int)', f'CONVERT({path(rng, 1)} USING utf8)', f'CAST({path(rng, 1)} AS decimal(10, 2))',
-                           f'CAST({path(rng, 1)} AS varchar(20))'])
+                           f'CAST({path(rng, 1)} AS varchar(20))', f'CAST({path(rng, 1)} AS decimal({rng.choice(INT_SLOT)}, {rng.choice(INT_SLOT)}))',
+                           f'CAST({path(rng, 1)} AS varchar({rng.choice(INT_SLOT)}))'])
     if k == 'casearg':
         n = rng.randint(1, 2)
         whens = ' '.join(f'WHEN {const(rng)} THEN {expr(rng, d)}' for _ in range(n))
@@ -235,6 +241,10 @@ def select(rng, depth=2, simple=False):
 
 def kw_value(rng, depth=1, ident_ok=False):
     r = rng.random()
+    if r < 0.06:
+        # option texts holding quotes of BOTH kinds (which quote the printer picks, and what the reader strips, then matters);
+        # the quotes sit inside the text, not at its ends (values that begin / end with a quote are C04-F1's business)
+        return rng.choice(OPTION_QUOTED)
     if r < 0.35:
         return rng.choice(STRINGS[:6] + STRINGS[8:11])
     if r < 0.55:
@@ -321,9 +331,9 @@ def _create_model(rng):
         s += f' ORDER BY {ident(rng, 0)}'
         if rng.random() < 0.5:
             s += f' GROUP BY {ident(rng, 0)}'
-        s += f' WINDOW {rng.choice(["5", "10"])}'
+        s += f' WINDOW {rng.choice(INT_SLOT)}'
         if rng.random() < 0.5:
-            s += f' HORIZON {rng.choice(["1", "7"])}'
+            s += f' HORIZON {rng.choice(INT_SLOT)}'
     if rng.random() < 0.5:
         s += ' USING ' + kw_params(rng, n=2)
     return s
@@ -339,7 +349,7 @@ def _job(rng):
     if rng.random() < 0.4:
         s += " END '2024-01-01'"
     if rng.random() < 0.6:
-        s += rng.choice([" EVERY hour", " EVERY 2 days", " EVERY '1 day'"])
+        s += rng.choice([" EVERY hour", " EVERY 2 days", " EVERY '1 day'", " EVERY 0 days", " EVERY 10 min"])
     if rng.random() < 0.3:
         s += f' IF ({raw_inner(rng)})'
     return s
